@@ -136,6 +136,17 @@ func c04Classify(st *engine.Step) (pid, class string) {
 			return x, "complete"
 		}
 		return x, "failure"
+	case "sms_remove":
+		// a wrong code on the removal page of a logged-in session is a failed 2FA attempt like any other
+		// (a right one switches the factor off; it is not a login and moves no counter)
+		x := o.UIDBefore()
+		r, ok := pre.DB.Users[x]
+		if !st.S.Cfg.Has("sms2fa") || !ok || tag.Recovery != "" || tag.Secret == "" || o.SessBefore["sms_secret"] == "" {
+			return "", ""
+		}
+		if !smsCodeValidFor(pre, o.Req.Browser, r.SMSPhoneNumber, tag.Secret) {
+			return x, "failure"
+		}
 	case "recover_end":
 		if sec := liveRecoverToken(pre, tag.Secret, st.S.AB.Config.Modules.RecoverTokenDuration); sec != nil && st.S.AB.Config.Modules.RecoverLoginAfterRecovery && o.OK() {
 			if has2FA(pre, sec.Owner) {
@@ -248,7 +259,7 @@ func c04Monitor(cfg c04cfg) func(st *engine.Step) {
 				}
 				cl := post.Clone()
 				o := flows.Exec(st.S, cl, flows.Login(st.S, "B2", pid, p, false), "")
-				accepted := o.UIDAfter() == pid || o.SessAfter["totp_pending"] == pid
+				accepted := o.UIDAfter() == pid || o.SessAfter["totp_pending"] == pid || o.SessAfter["sms_pending"] == pid
 				if want := !m.lockedUntil.After(now); accepted != want {
 					st.Report(engine.Violation{Rule: "C04/next-correct-login", Attrs: fmt.Sprintf("after=%d,accepted=%v,expected=%v", cfg.after, accepted, want),
 						Detail: fmt.Sprintf("after %s a correct-password login of %s is accepted=%v, the reference automaton says %v", st.Act.Name, pid, accepted, want)})
@@ -306,6 +317,7 @@ func c04Scenarios(tier string) []engine.Scenario {
 		whos := []string{"otp", "totp"}
 		if gi == 1 || tier == "thorough" && gi < 4 {
 			whos = append(whos, "totp-onetime") // users with TOTP replay protection: a repeated code is a counted failure too
+			whos = append(whos, "sms")          // SMS codes, also on the removal page of a logged-in session
 		}
 		for _, who := range whos {
 			who := who
@@ -330,6 +342,9 @@ func c04Scenarios(tier string) []engine.Scenario {
 			if who == "totp" {
 				mods = []string{"auth", "lock", "totp2fa", "recovery", "logout"}
 			}
+			if who == "sms" {
+				mods = []string{"auth", "lock", "sms2fa", "recovery", "logout"}
+			}
 			sc := engine.Scenario{
 				Name:  fmt.Sprintf("%s-after%d-w%s-d%s", map[bool]string{false: who, true: "totp-onetime"}[onetime], cfg.after, cfg.w, cfg.d),
 				Depth: depth, Sat: sat, MaxStates: 400000,
@@ -338,6 +353,8 @@ func c04Scenarios(tier string) []engine.Scenario {
 					w := world.NewWorld("B1", "B2")
 					if who == "otp" {
 						flows.SeedAcct(s, w, flows.Acct{PID: U1, Password: P1, OTPs: []string{"11111111-22222222-33333333-44444444", "55555555-66666666-77777777-88888888"}})
+					} else if who == "sms" {
+						flows.SeedAcct(s, w, flows.Acct{PID: U1, Password: P1, SMSNumber: N1, RecoveryCodes: []string{"aaaaa-11111"}})
 					} else {
 						flows.SeedAcct(s, w, flows.Acct{PID: U1, Password: P1, TOTPSecret: flows.TOTPSecrets[0], RecoveryCodes: []string{"aaaaa-11111"}})
 					}
@@ -387,6 +404,33 @@ func c04Scenarios(tier string) []engine.Scenario {
 							return r
 						}, ""))
 					}
+				} else if who == "sms" {
+					ses := w.Browsers[b].Session
+					code := ses["sms_secret"]
+					if ses["sms_pending"] == U1 && w.UID(b) == "" && code != "" {
+						a = append(a, flows.A("sms-validate(B1,sms:session-code)", func(s *world.Stack, _ *world.World) world.Req {
+							r := flows.SMSValidate(s, b, code, "")
+							r.Tag.Note = "sms:session-code"
+							return r
+						}, ""))
+						if failuresAllowed {
+							a = append(a, flows.A("sms-validate(B1,code:000000)", func(s *world.Stack, _ *world.World) world.Req {
+								r := flows.SMSValidate(s, b, "000000", "")
+								r.Tag.Note = "code:000000"
+								return r
+							}, ""))
+						}
+					}
+					if w.UID(b) == U1 {
+						a = append(a, flows.A("sms-remove(B1,resend)", func(s *world.Stack, _ *world.World) world.Req { return flows.SMSRemove(s, b, "", "") }, ""))
+						if code != "" && failuresAllowed {
+							a = append(a, flows.A("sms-remove(B1,code:000000)", func(s *world.Stack, _ *world.World) world.Req {
+								r := flows.SMSRemove(s, b, "000000", "")
+								r.Tag.Note = "code:000000"
+								return r
+							}, ""))
+						}
+					}
 				} else if w.Browsers[b].Session["totp_pending"] == U1 && w.UID(b) == "" {
 					code := flows.TOTPCode(w, flows.TOTPSecrets[0], 0)
 					a = append(a, flows.A("totp-validate(B1,totp:now)", func(s *world.Stack, _ *world.World) world.Req {
@@ -421,6 +465,9 @@ func c04Scenarios(tier string) []engine.Scenario {
 			if onetime {
 				sc.Need = append(sc.Need, "repeated-code")
 			}
+			if who == "sms" {
+				sc.Need = []string{"failure:login", "first-factor:login", "failure:sms_validate", "complete:sms_validate", "failure:sms_remove", "became-locked"}
+			}
 			out = append(out, sc)
 		}
 	}
@@ -433,7 +480,7 @@ func init() {
 		Rule: "E1 with a reference automaton (count, last attempt, locked-until) advanced on the same history and compared with storage and with a probe login after every step; clock alphabet {1s, W-1s, W+1s, D-1s, D+1s}; accounts with OTPs, with TOTP, and with TOTP replay protection; small-duration configurations run to a fixpoint (all histories of any length); classes = attempt classes and lock transitions hit",
 		Units: func(tier string) []engine.Unit {
 			scs := c04Scenarios(tier)
-			return e1Units(append(scs, configVariants(scs[:2], tier, "err500", "json")...))
+			return e1Units(append(scs, configVariants(scs[:2], tier, "err500", "json", "localizer")...))
 		},
 		Assumptions: []string{"lock expiry at exactly LockDuration is not asserted either way", "at most LockAfter+2 counted failures in a row (bounds the counter)", "TOTP replay protection (UserOneTime) is exercised in dedicated configurations: the code accepted last, sent again, is a counted failure"},
 	})
